@@ -289,19 +289,42 @@ def desired_uv(sc, f: int) -> tuple[np.ndarray, np.ndarray]:
     return lv[:, None, None] * bu[None], lv[:, None, None] * bv[None]
 
 
-def pack_scale(sc, comp: str = "u") -> float:
-    """scale_factor of a packed velocity component; 'scale' is one number or [scale_u, scale_v]"""
-    sc_ = sc["frames"].get("scale", 1.0e-4)
-    if isinstance(sc_, (list, tuple)):
-        return float(sc_[0 if comp == "u" else 1])
-    return float(sc_)
+def file_of_frame(sc, f: int) -> int:
+    """index of the forcing file that holds frame f"""
+    n = len(frame_offsets(sc))
+    split = sc["frames"].get("split") or [n]
+    acc = 0
+    for k, m in enumerate(split):
+        acc += m
+        if f < acc:
+            return k
+    return len(split) - 1
 
 
-def stored_uv(sc, f: int):
+def file_storage(sc, file_index: int) -> tuple[str, tuple[float, float]]:
+    """storage type and (scale_u, scale_v) of a forcing file; 'per_file' overrides the common setting
+    (files packed one by one carry their own scale factors, packed and float files may be mixed)"""
+    fr = sc["frames"]
+    pf = fr.get("per_file")
+    spec = pf[file_index] if pf and file_index < len(pf) else fr
+    sc_ = spec.get("scale", fr.get("scale", 1.0e-4))
+    if not isinstance(sc_, (list, tuple)):
+        sc_ = [sc_, sc_]
+    return spec.get("storage", fr.get("storage", "f4")), (float(sc_[0]), float(sc_[1]))
+
+
+def pack_scale(sc, comp: str = "u", file_index: int = 0) -> float:
+    s = file_storage(sc, file_index)[1]
+    return s[0 if comp == "u" else 1]
+
+
+def stored_uv(sc, f: int, file_index: int | None = None):
     """what goes into the file: (array to write, its netCDF dtype, scale or None)"""
     du, dv = desired_uv(sc, f)
-    if sc["frames"].get("storage", "f4") == "i2":
-        su, sv = pack_scale(sc, "u"), pack_scale(sc, "v")
+    if file_index is None:
+        file_index = file_of_frame(sc, f)
+    storage, (su, sv) = file_storage(sc, file_index)
+    if storage == "i2":
         qu = np.clip(np.rint(du / su), -32000, 32000).astype(np.int16)
         qv = np.clip(np.rint(dv / sv), -32000, 32000).astype(np.int16)
         return qu, qv, (su, sv)
